@@ -502,6 +502,23 @@ def run_case(case):
         lp_ref = float(-(maha + ld + n * d * mpl.mp.log(2 * mpl.mp.pi)) / 2)
         lp = rv.logpdf_flat(jnp.asarray(u_flat))
         C.scalar("logpdf", lp, lp_ref, tol=1e-8, floor=max(1.0, abs(lp_ref)))
+        # the same Gaussian at an extreme but representable overall scale s: log N(m + s e; m, s^2 P) = log N(m + e; m, P) - N log s.
+        # A determinant formed as a product of the Cholesky diagonal under/overflows long before its logarithm does (seed C08-s4).
+        # exponent chosen so that the *product* of the N diagonal entries leaves the float64 range while every entry stays inside
+        ex = float(r.choice([-1.0, 1.0])) * float(min(140, max(8, math.ceil(330 / (n * d)))))
+        s_ = 10.0**ex
+        rv_s = rv.rescale_cholesky(jnp.asarray(np.full((d,), s_)) if fact == "blockdiag" else jnp.asarray(s_))
+        delta = u_nd - mean
+        u_s = mean + s_ * delta
+        u_s_flat = {"dense": u_s.reshape(-1), "isotropic": u_s, "blockdiag": u_s.T}[fact]
+        lp_s = rv_s.logpdf_flat(jnp.asarray(u_s_flat))
+        # the shifted point m + s e is only representable when s |e| is not swamped by |m|: the reference uses the point as formed
+        ue_s = mpl.M(_embed_mean(fact, u_s_flat))
+        ld_s, maha_s = mpl.logdet_and_maha(P * mpl.mp.mpf(10) ** (2 * int(ex)), ue_s - m)
+        lp_s_ref = float(-(maha_s + ld_s + n * d * mpl.mp.log(2 * mpl.mp.pi)) / 2)
+        if ex > 0 or float(np.max(np.abs(mean))) * 2.0**-52 < 1e-3 * s_ * float(np.min(np.abs(delta)) + 1e-300):
+            C.scalar("logpdf_extreme_scale", lp_s, lp_s_ref, tol=1e-7, floor=max(1.0, abs(lp_s_ref)))
+            C.obs["extreme_scale_logpdfs"] = C.obs.get("extreme_scale_logpdfs", 0) + 1
         if case["prior_kind"] == "well":
             rms = rv.residual_whitened_rms_flat(jnp.asarray(u_flat))
             if fact == "blockdiag":
